@@ -350,7 +350,11 @@ func execStWith(toks []string, setup func(*stCase, func(io.Closer)) stSetup) str
 				}
 				switch e.kind {
 				case "w":
-					n, err := W.Write(genBytes(e.n, e.seed))
+					payload := genBytes(e.n, e.seed)
+					n, err := W.Write(payload)
+					for i := range payload { // the caller reuses its buffer as soon as Write returns
+						payload[i] ^= 0xA5
+					}
 					switch {
 					case err == nil:
 						wres = append(wres, "ok:"+strconv.Itoa(n))
@@ -390,9 +394,11 @@ func execStWith(toks []string, setup func(*stCase, func(io.Closer)) stSetup) str
 		}
 		// read results are written relative to the case's reference stream (Driver/C10.lean refStream):
 		// "x:<n>" = the next n bytes of the reference at the cursor, anything else literally
+		// Every buffer handed to Read is HELD until all reads are done and only then looked at (a stream
+		// that kept a reference to a caller's buffer, or handed out memory it reuses, would show here).
 		ref := refStream(c)
-		cur := 0
 		var rres []string
+		var held [][]byte
 		for _, p := range c.rd {
 			buf := make([]byte, p)
 			if c.tailErr {
@@ -404,14 +410,11 @@ func execStWith(toks []string, setup func(*stCase, func(io.Closer)) stSetup) str
 			}
 			n, err := R.Read(buf)
 			if err == nil {
-				if n > 0 && cur+n <= len(ref) && bytes.Equal(ref[cur:cur+n], buf[:n]) {
-					rres = append(rres, "x:"+strconv.Itoa(n))
-				} else {
-					rres = append(rres, "d:"+vc.Hex(buf[:n]))
-				}
-				cur += n
+				rres = append(rres, "")
+				held = append(held, buf[:n:n])
 				continue
 			}
+			held = append(held, nil)
 			if n != 0 {
 				rres = append(rres, fmt.Sprintf("data-and-error:%d", n))
 				break
@@ -422,6 +425,19 @@ func execStWith(toks []string, setup func(*stCase, func(io.Closer)) stSetup) str
 			}
 			rres = append(rres, "err:"+kindOf(err))
 			break
+		}
+		cur := 0
+		for i, b := range held {
+			if rres[i] != "" {
+				continue
+			}
+			n := len(b)
+			if n > 0 && cur+n <= len(ref) && bytes.Equal(ref[cur:cur+n], b) {
+				rres[i] = "x:" + strconv.Itoa(n)
+			} else {
+				rres[i] = "d:" + vc.Hex(b)
+			}
+			cur += n
 		}
 		// unblock a sender stuck on a full socket buffer (reader stopped early), then collect
 		select {
